@@ -35,7 +35,8 @@ def gen_history(R):
         elif use_ext and x < 0.18:
             h.append("setaxis E:" + show(Fraction(r.randint(0, 64), 32)))
         elif x < 0.22:
-            h.append(f"hook {r.choice(['add', 'add', 'remove'])} {r.choice(['record', 'limitF:600', 'limitF:100', ext])}")
+            h.append(f"hook {r.choice(['add', 'add', 'remove'])} "
+                     f"{r.choice(['record', 'limitF:600', 'limitF:100', ext, 'drop:Q', 'drop:F', 'drop:E', 'drop:S'])}")
         elif x < 0.25:
             h.append(r.choice(["hookctx enter " + r.choice(["record", "limitF:600"]), "hookctx exit x", "hookctx exitraise x"]))
         elif x < 0.27:
@@ -43,6 +44,8 @@ def gen_history(R):
             h.append("trace polyline " + pts)
         else:
             op = g.op()
+            if op.split()[0] in ("move", "moveabs") and r.random() < 0.25:
+                op += " Q:" + str(r.randint(0, 3))     # a marker parameter some hook may consume
             if use_ext:
                 op = " ".join(w for w in op.split() if not w.startswith("E:"))  # the hook owns E
             h.append(op)
@@ -107,6 +110,10 @@ def oracle(lines, recs, im):
                             out.append((i, f"emitted F={words['F']} above the hook's limit {min(lim)}", "params"))
                         if "F" in words and Fraction(r["feed"]) != words["F"]:
                             out.append((i, f"emitted F={words['F']} but state.feed_rate={r['feed']}", "params"))
+                        # a parameter the LAST hook of the chain removes (and no later hook adds) is neither written nor remembered
+                        if hooks[-1].startswith("drop:") and hooks[-1].split(":")[1] in words:
+                            out.append((i, f"`{ln}` wrote {hooks[-1].split(':')[1]} although the last hook ({hooks[-1]}) returned "
+                                           f"the parameters without it", "params"))
                         ext = [h for h in hooks if h.startswith("extrude")]
                         if ext and new_calls and ext[-1] == hooks[-1]:
                             layer, nozzle, fil = (float(Fraction(x)) for x in ext[-1].split(":")[1:])
